@@ -67,6 +67,19 @@ Definition fnum_text (x : fnum) : list N :=
   ++ (match ffrac x with [] => [] | ds => 46 :: ds end)
   ++ (match fexp x with None => [] | Some (neg, ds) => 101 :: (if neg then 45 else 43) :: ds end).
 
+(* The shape assumed of strconv.AppendFloat(f, fmt, -1, 64) for finite f:
+   'e': [-]d[.d+]e(+|-)dd+ (at least two exponent digits), 'f': [-]d+[.d+]; no superfluous leading zero. *)
+Definition is_dig (c : N) : bool := (48 <=? c) && (c <=? 57).
+Definition all_digits (l : list N) : bool := forallb is_dig l.
+Definition canon_int (l : list N) : bool :=
+  all_digits l && (match l with [] => false | [_] => true | c :: _ => negb (c =? 48) end).
+Definition fnum_shape (e : bool) (x : fnum) : bool :=
+  canon_int (fint x) && all_digits (ffrac x)
+  && (if e then match fexp x with
+                | Some (_, ds) => all_digits ds && (2 <=? length ds)%nat && (length (fint x) =? 1)%nat
+                | None => false end
+      else match fexp x with None => true | Some _ => false end).
+
 Definition two63 : N := 0x8000000000000000.
 Definition inf_bits : N := 0x7FF0000000000000.
 Definition max_bits : N := 0x7FEFFFFFFFFFFFFF.   (* math.MaxFloat64 *)
